@@ -339,7 +339,8 @@ impl Lcg {
 
 fn c02_salience_order_search_inner(progress: &Arc<Mutex<String>>) -> (bool, String) {
     let mut tried = 0;
-    for seed in 0..40u64 {
+    let seeds = crate::bound(40, 2000) as u64; // (every seed gives two runs: execute_at_time and execute_with_callback)
+    for seed in 0..seeds {
         let mut g = Lcg(seed * 7919 + 13);
         let n = 22 + (seed as usize % 4) * 9; // 22, 31, 40, 49 rules
         let levels: Vec<i32> = match seed % 3 {
@@ -418,7 +419,7 @@ fn c02_salience_order_search_inner(progress: &Arc<Mutex<String>>) -> (bool, Stri
     (false, format!("{} rule sets of 22..49 no-loop rules with tied / negative / extreme saliences in shuffled insertion order, some disabled; histories: execute, 3 late additions, reset, execute, remove+re-add, enable flips, reset, execute, execute; both execute_at_time and execute_with_callback", tried))
 }
 fn c02_salience_order_search() -> (bool, String) {
-    guarded(60, c02_salience_order_search_inner)
+    guarded(crate::bound(60, 900) as u64, c02_salience_order_search_inner)
 }
 
 // ------------------------------------------------------------------------------------------------------------------------
@@ -605,6 +606,7 @@ fn run_history(rules: &[RM], flags: &[(&str, bool)], ops: &[Op], callback: bool)
 fn focus_search(rules: Vec<RM>, label: &str, progress: &Arc<Mutex<String>>) -> (bool, String) {
     let menu = [Op::Exec, Op::Focus("G"), Op::Focus("H"), Op::Focus("MAIN"), Op::Pop, Op::Clear, Op::Reset, Op::Api("G"), Op::Enable("D1", true), Op::Flag("x", true)];
     let flags = [("a", false), ("x", false)];
+    let max_len = crate::bound(4, 5);
     let mut tried = 0u64;
     let mut stack: std::collections::VecDeque<Vec<Op>> = vec![vec![]].into(); // breadth first: shortest histories first
     while let Some(sq) = stack.pop_front() {
@@ -622,7 +624,7 @@ fn focus_search(rules: Vec<RM>, label: &str, progress: &Arc<Mutex<String>>) -> (
                 return (true, format!("rules (in insertion order) {}; facts a=false x=false; {}", describe_rules(&rules), bad));
             }
         }
-        if sq.len() < 4 {
+        if sq.len() < max_len {
             for op in menu.iter() {
                 let mut n = sq.clone();
                 n.push(*op);
@@ -630,7 +632,7 @@ fn focus_search(rules: Vec<RM>, label: &str, progress: &Arc<Mutex<String>>) -> (
             }
         }
     }
-    (false, format!("{} histories of <= 4 operations from {{execute, set focus G/H/MAIN, pop, clear, reset no-loop, activate_agenda_group(G), enable D1, x := true}} + a final execute, on rule set {} ({} rules: agenda groups MAIN/G/H, lock-on-active, ActivateAgendaGroup actions, an activation group, no-loop)", tried, label, rules.len()))
+    (false, format!("{} histories of <= {} operations from {{execute, set focus G/H/MAIN, pop, clear, reset no-loop, activate_agenda_group(G), enable D1, x := true}} + a final execute, on rule set {} ({} rules: agenda groups MAIN/G/H, lock-on-active, ActivateAgendaGroup actions, an activation group, no-loop)", tried, max_len, label, rules.len()))
 }
 fn c02_focus_history_search_a_inner(progress: &Arc<Mutex<String>>) -> (bool, String) {
     focus_search(rule_set_a(), "A", progress)
@@ -639,10 +641,10 @@ fn c02_focus_history_search_b_inner(progress: &Arc<Mutex<String>>) -> (bool, Str
     focus_search(rule_set_b(), "B", progress)
 }
 fn c02_focus_history_search_a() -> (bool, String) {
-    guarded(120, c02_focus_history_search_a_inner)
+    guarded(crate::bound(120, 900) as u64, c02_focus_history_search_a_inner)
 }
 fn c02_focus_history_search_b() -> (bool, String) {
-    guarded(120, c02_focus_history_search_b_inner)
+    guarded(crate::bound(120, 900) as u64, c02_focus_history_search_b_inner)
 }
 
 // ------------------------------------------------------------------------------------------------------------------------
@@ -657,7 +659,8 @@ fn c02_activation_group_search_inner(progress: &Arc<Mutex<String>>) -> (bool, St
         let sal: Vec<i32> = (0..4).map(|k| [-1, 0, 2][(sal_bits / 3usize.pow(k as u32)) % 3]).collect();
         for cond_bits in 0..16usize {
             for (oi, order) in orders.iter().enumerate() {
-                if oi > 0 && (sal_bits + cond_bits) % 3 != 0 {
+                // the second and third insertion order for a third of the assignments (thorough tier: for all)
+                if oi > 0 && (sal_bits + cond_bits) % 3 != 0 && !crate::thorough() {
                     continue;
                 }
                 let mut base: Vec<RM> = (0..4).map(|k| rm(&format!("a{}", k), sal[k]).act(if k == 3 && sal_bits % 2 == 1 { "other" } else { "ag" }).cond(flags_names[k])).collect();
@@ -681,10 +684,10 @@ fn c02_activation_group_search_inner(progress: &Arc<Mutex<String>>) -> (bool, St
             }
         }
     }
-    (false, format!("{} rule sets: 4 rules of one or two activation groups with saliences from {{-1,0,2}} (all assignments), every truth assignment of their conditions, a free rule that enables a0 for the second pass, three insertion orders; 2 passes", tried))
+    (false, format!("{} rule sets: 4 rules of one or two activation groups with saliences from {{-1,0,2}} (all assignments), every truth assignment of their conditions, a free rule that enables a0 for the second pass, three insertion orders ({}); 2 passes", tried, if crate::thorough() { "all three for every assignment" } else { "the second and third for a third of the assignments" }))
 }
 fn c02_activation_group_search() -> (bool, String) {
-    guarded(60, c02_activation_group_search_inner)
+    guarded(crate::bound(60, 900) as u64, c02_activation_group_search_inner)
 }
 
 // ------------------------------------------------------------------------------------------------------------------------
@@ -699,6 +702,7 @@ fn c02_no_loop_history_search_inner(progress: &Arc<Mutex<String>>) -> (bool, Str
     ];
     let menu = [Op::Exec, Op::Reset, Op::Flag("a", false), Op::Flag("p", true), Op::Enable("once_b", false), Op::Enable("once_b", true)];
     let flags = [("a", false), ("p", false)];
+    let max_len = crate::bound(5, 7);
     let mut tried = 0u64;
     let mut stack: std::collections::VecDeque<Vec<Op>> = vec![vec![]].into(); // breadth first: shortest histories first
     while let Some(sq) = stack.pop_front() {
@@ -709,7 +713,7 @@ fn c02_no_loop_history_search_inner(progress: &Arc<Mutex<String>>) -> (bool, Str
         if let Some(bad) = run_history(&rules, &flags, &ops, tried % 3 == 0) {
             return (true, format!("rules (in insertion order) {}; facts a=false p=false; {}", describe_rules(&rules), bad));
         }
-        if sq.len() < 5 {
+        if sq.len() < max_len {
             for op in menu.iter() {
                 let mut n = sq.clone();
                 n.push(*op);
@@ -717,10 +721,10 @@ fn c02_no_loop_history_search_inner(progress: &Arc<Mutex<String>>) -> (bool, Str
             }
         }
     }
-    (false, format!("{} histories of <= 5 operations from {{execute, reset_no_loop_tracking, a := false, p := true, disable/enable once_b}} + a final execute on 3 no-loop rules and a plain one that trigger each other", tried))
+    (false, format!("{} histories of <= {} operations from {{execute, reset_no_loop_tracking, a := false, p := true, disable/enable once_b}} + a final execute on 3 no-loop rules and a plain one that trigger each other", tried, max_len))
 }
 fn c02_no_loop_history_search() -> (bool, String) {
-    guarded(60, c02_no_loop_history_search_inner)
+    guarded(crate::bound(60, 900) as u64, c02_no_loop_history_search_inner)
 }
 
 pub fn witnesses() -> Vec<crate::W> {
